@@ -352,7 +352,7 @@ std::vector<long double> make_user_weights(Plan const& p)
     std::uint64_t const s = p.wseed;
     int const scale = static_cast<int>(mix2(s, 1) % 9) - 4;
     std::uint64_t const zero_style = mix2(s, 2) % 6;   // 0 none, 1 front, 2 end, 3 middle, 4 random, 5 all but one
-    std::uint64_t const mag_style = mix2(s, 3) % 3;
+    std::uint64_t const mag_style = mix2(s, 3) % 4;   // 3: one channel's weight is tiny relative to the others
     std::size_t positive = 0;
 
     for (std::uint64_t i = 0; i != p.chan; ++i)
@@ -360,7 +360,14 @@ std::vector<long double> make_user_weights(Plan const& p)
         long double v = 0;
         if (mag_style == 0) v = 1;
         else if (mag_style == 1) v = 0.05L + unit(s, 100 + i);
-        else v = std::exp2(-12.0L * unit(s, 100 + i));
+        else if (mag_style == 2) v = std::exp2(-12.0L * unit(s, 100 + i));
+        else
+        {
+            // after normalisation the first such weight is subnormal (or far below eps) in the type
+            int const e = (p.nt == NT_F) ? 130 + static_cast<int>(mix2(s, 6) % 15)
+                : (p.nt == NT_D) ? 1026 + static_cast<int>(mix2(s, 6) % 40) : 16390 + static_cast<int>(mix2(s, 6) % 40);
+            v = (i == mix2(s, 7) % p.chan) ? std::ldexp(1.0L, -e + 4) : 0.5L + unit(s, 100 + i);
+        }
 
         bool zero = false;
         switch (zero_style)
